@@ -43,8 +43,14 @@ class RawLit(str):
         return "RawLit(" + str.__repr__(self) + ")"
 
 
+class MultiLit(RawLit):
+    """... written as a triple-quoted literal that spans several source lines (some of them whitespace only)"""
+
+
+MULTILINE_LITERALS = (MultiLit("first\n   \nlast"), MultiLit("a\n\t\n \nb\n    "), MultiLit("  indented\n      \n  text  \n"))
+
 RAW_LITERALS = (RawLit("a\tb"), RawLit("\tlead"), RawLit("trail\t"), RawLit("x\x0cy"), RawLit("\u00e9\t\u65e5\u672c"), RawLit("two  spaces   three"),
-                RawLit("\ufeffbom inside"), RawLit("nb\u00a0sp"))
+                RawLit("\ufeffbom inside"), RawLit("nb\u00a0sp")) + MULTILINE_LITERALS
 
 NOISE = ["print", "stdout_write", "dunder_stdout", "os_write1", "os_write2", "os_system", "stderr_write", "os_read0", "stdin_read", "child_reads_stdin"]
 
@@ -142,7 +148,9 @@ def render_lines(prog, indent=""):
             L.append("except OSError:")
             L.append("    channel.send('close refused')")
         elif kind == "send_const":
-            if isinstance(st[1], RawLit):
+            if isinstance(st[1], MultiLit):
+                L.append("channel.send(\'\'\'" + str(st[1]) + "\'\'\')")  # (one entry: its further lines are the literal's, not code)
+            elif isinstance(st[1], RawLit):
                 L.append("channel.send('" + str(st[1]) + "')")  # the characters themselves, not escapes
             else:
                 L.append(f"channel.send({st[1]!r})")
@@ -156,12 +164,12 @@ def render_lines(prog, indent=""):
             if depth:
                 L.append("def _deep(n):")
                 L.append("    if n <= 0:")
-                raise_line = len(L)
+                raise_line = sum(x.count("\n") + 1 for x in L)  # (an entry may span several source lines)
                 L.append(f"        raise {st[1]}({st[2]!r})")
                 L.append("    return _deep(n - 1)")
                 L.append(f"_deep({depth})")
             else:
-                raise_line = len(L)
+                raise_line = sum(x.count("\n") + 1 for x in L)
                 L.append(f"raise {st[1]}({st[2]!r})")
     L.append("channel.send('__final__')")
     return [indent + l for l in L], raise_line
